@@ -24,8 +24,25 @@ int main() {
             { vf::Entry e("utils::multivariate_gaussian_density"); dn = utils::multivariate_gaussian_density(input, mean, cov); }
             { vf::Entry e("utils::multivariate_gaussian_log_density_UVR"); ldu = utils::multivariate_gaussian_log_density_UVR(input, mean, U, V, R); }
             { vf::Entry e("utils::multivariate_gaussian_density_UVR"); dnu = utils::multivariate_gaussian_density_UVR(input, mean, U, V, R); }
+            // the same calls with the arguments passed as views into larger buffers (the functions are
+            // templates over MatrixBase / take Eigen::Ref: blocks, strides and expressions are legal arguments)
+            const long d = input.rows(), b = input.cols(), k = U.cols();
+            MatrixXd big = MatrixXd::Constant(d + 3, b + 2, 1e9);
+            big.block(2, 1, d, b) = input;
+            VectorXd bigmean = VectorXd::Constant(d + 2, -1e9); bigmean.segment(1, d) = mean;
+            MatrixXd bigcov = MatrixXd::Constant(d + 1, d + 2, 1e9); bigcov.block(1, 2, d, d) = cov;
+            MatrixXd bigU = MatrixXd::Constant(d + 2, k + 1, 1e9); bigU.block(1, 1, d, k) = U;
+            MatrixXd bigV = MatrixXd::Constant(k + 1, d + 1, 1e9); bigV.block(0, 1, k, d) = V;
+            MatrixXd bigR = MatrixXd::Constant(R.rows() + 1, R.cols() + 1, 1e9); bigR.block(1, 0, R.rows(), R.cols()) = R;
+            VectorXd ldv, lduv;
+            { vf::Entry e("utils::multivariate_gaussian_log_density(views)");
+              ldv = utils::multivariate_gaussian_log_density(big.block(2, 1, d, b), bigmean.segment(1, d), bigcov.block(1, 2, d, d)); }
+            { vf::Entry e("utils::multivariate_gaussian_log_density_UVR(views)");
+              lduv = utils::multivariate_gaussian_log_density_UVR(big.block(2, 1, d, b), bigmean.segment(1, d), bigU.block(1, 1, d, k),
+                                                                  bigV.block(0, 1, k, d), bigR.block(1, 0, R.rows(), R.cols())); }
             vf::out_begin(c.id);
             vf::out_mat("ld", ld); vf::out_mat("dn", dn); vf::out_mat("ldu", ldu); vf::out_mat("dnu", dnu);
+            vf::out_mat("ld_views", ldv); vf::out_mat("ldu_views", lduv);
             vf::out_int("inputs_unchanged", vf::bit_equal(input, input0) && vf::bit_equal(mean, mean0) && vf::bit_equal(U, U0)
                                                 && vf::bit_equal(V, V0) && vf::bit_equal(R, R0) && vf::bit_equal(cov, cov0) ? 1 : 0);
             vf::out_end();
@@ -41,8 +58,15 @@ int main() {
                 MatrixXd xm = Map<const MatrixXd>(x.data(), x.size() / mc, mc);
                 vf::Entry e("utils::log_sum_exp"); vm = utils::log_sum_exp(xm);
             }
+            // row vector, strided view (row of a column-major matrix), and an expression argument
+            double vr, vst, vex;
+            { RowVectorXd xr = x.transpose(); vf::Entry e("utils::log_sum_exp(row)"); vr = utils::log_sum_exp(xr); }
+            { MatrixXd pad = MatrixXd::Constant(3, x.size(), 1e9); pad.row(1) = x.transpose();
+              vf::Entry e("utils::log_sum_exp(strided)"); vst = utils::log_sum_exp(pad.row(1)); }
+            { vf::Entry e("utils::log_sum_exp(expression)"); vex = utils::log_sum_exp((x.array() + sh).matrix()); }
             vf::out_begin(c.id);
             vf::out_num("lse", v); vf::out_num("lse_shift", vs);
+            vf::out_num("lse_row", vr); vf::out_num("lse_strided", vst); vf::out_num("lse_expr", vex);
             if (mc > 0) vf::out_num("lse_mat", vm);
             vf::out_end();
         } else {
